@@ -24,6 +24,7 @@ ASSUMPTIONS = ['"in progress" is derived from the bus log: session open until it
 MIN_OBS = {'history_steps': {'quick': 15000, 'thorough': 400000}, 'failed_transfers': {'quick': 4000, 'thorough': 100000},
            'probe_transfers_delivered': {'quick': 6000, 'thorough': 150000}, 'probe_refusals_checked': {'quick': 1200, 'thorough': 30000},
            'pool_invariant_checks': {'quick': 150000, 'thorough': 4000000}, 'inbound_odd_sessions': {'quick': 500, 'thorough': 12000}}
+MIN_OBS_UNLESS = {'pool_invariant_checks': 'pool_not_observed'}      # private pool names may be gone after a refactor
 
 S1, S2, PA, RA = 0x10, 0x11, 0x20, 0x30
 
@@ -260,7 +261,7 @@ def run_case(case):
     inv_ok = install_pool_invariant(S, viol, inv_count, layer) if fd else False
     W.run(0.01)
 
-    obs = dict(history_steps=0, failed_transfers=0, probe_transfers_delivered=0, probe_refusals_checked=0, pool_invariant_checks=0,
+    obs = dict(pool_not_observed=1 if (fd and not inv_ok) else 0, history_steps=0, failed_transfers=0, probe_transfers_delivered=0, probe_refusals_checked=0, pool_invariant_checks=0,
                inbound_odd_sessions=0, refused_during_history=0)
     steps = []
     sends = []       # dict(t, sa, da, mode, ret)
